@@ -162,19 +162,19 @@ def run(ck):
         def thk(it):
             return it.call_function(VFunc(skl), [tens(it, "t", ("N",)), tens(it, "m", ("N",))], {}, None)
 
-        p = single(paths_of(prog, thk), "_single_basis_KL")
-        t_, m_ = T.sym("t"), T.sym("m")
-        want = T.app("sum", t_ * T.app("plog", t_), "all") - T.app("sum", t_ * T.app("plog", m_), "all")
-        got = p.value.term
-        if got == want:
-            ck.ok("C10.R3", "_single_basis_KL = sum t log t - sum t log m", skl.site())
-        else:
-            d = lin_diff(got, want)
-            if got == -want:
-                d = ("coeff", "both sums", "negated", "sum t log t - sum t log m")
-            elif got == T.rename_syms(want, {"t": "m", "m": "t"}):
-                d = ("dep-extra", ["arguments exchanged: computes KL(model || target)"])
-            ck.check(diff_verdict(d), "C10.R3", "_single_basis_KL = sum t log t - sum t log m", skl.site(), "single-basis KL: " + diff_msg(d), got=got)
+        for p in returning(paths_of(prog, thk), "_single_basis_KL"):
+            t_, m_ = T.sym("t"), T.sym("m")
+            want = T.app("sum", t_ * T.app("plog", t_), "all") - T.app("sum", t_ * T.app("plog", m_), "all")
+            got = p.value.term
+            if got == want:
+                ck.ok("C10.R3", "_single_basis_KL = sum t log t - sum t log m", skl.site())
+            else:
+                d = lin_diff(got, want)
+                if got == -want:
+                    d = ("coeff", "both sums", "negated", "sum t log t - sum t log m")
+                elif got == T.rename_syms(want, {"t": "m", "m": "t"}):
+                    d = ("dep-extra", ["arguments exchanged: computes KL(model || target)"])
+                ck.check(diff_verdict(d), "C10.R3", "_single_basis_KL = sum t log t - sum t log m", skl.site(), "single-basis KL: " + diff_msg(d), got=got)
     # ------------------------------------------------------------------ R4 the rotations KL / NLL rely on
     # KL and NLL in a rotated basis are only the named quantities if the rotation is the tensor-product unitary with
     # site 0 leftmost and if U rho U^dagger binds rows/columns correctly: these C04 rules are necessary conditions here.
